@@ -67,13 +67,16 @@ def parseAtomBody (b0 : Nat) (rest : Bytes) : Option (Bytes × Bytes) :=
     if k ≥ 7 then none   -- size blob longer than 6 bytes
     else
       let first := b0 % (256 >>> k)
-      if rest.length < k - 1 then none
+      -- (lengths are taken of the prefixes only, so parsing stays linear in the input)
+      if (rest.take (k - 1)).length < k - 1 then none
       else
         let sz := beVal (first :: rest.take (k - 1))
         let rest := rest.drop (k - 1)
         if sz ≥ 0x400000000 then none
-        else if rest.length < sz then none
-        else some (rest.take sz, rest.drop sz)
+        else
+          let body := rest.take sz
+          if body.length < sz then none
+          else some (body, rest.drop sz)
 
 /-- plain deserialisation; fuel bounds the number of nodes (each consumes ≥ 1 byte) -/
 def deserFuel : Nat → Bytes → Option (Sexp × Bytes)
@@ -96,6 +99,11 @@ def deserialize (b : Bytes) : Option (Sexp × Bytes) := deserFuel (b.length + 1)
 
 /-- `node_from_bytes` ignores trailing bytes; the driver is given exact encodings -/
 def ofBytes (b : Bytes) : Option Sexp := (deserialize b).map (·.1)
+
+/-- every atom of the tree is a byte string (all elements below 256) -/
+def AllBytes : Sexp → Prop
+  | .atom b => isBytes b
+  | .pair l r => AllBytes l ∧ AllBytes r
 
 /-- The tree hash: atoms hashed with prefix 1, pairs with prefix 2. -/
 def treeHash : Sexp → Bytes
